@@ -61,3 +61,31 @@ Example C16_action_example :
   = Some ["S"; "."; "v"; "="; "D"; "["; "1"; "]"; "."; "a"; "+"; "D"; "["; "3"; "]"; "."; "c"; ";"; "$"; "x"]%char.
 Proof. exact (proj1 EmitAction.subst_example). Qed.
 Print Assumptions C16_action_example.
+
+From Coq Require Import NArith Ascii.
+From YG Require Import Lexer EmitAction BraceBalance.
+Close Scope Z_scope.
+Open Scope nat_scope.
+
+(* across the layers: an action body as the lexer model cuts it out (brace counting, as Lex.go does) is brace-balanced *)
+Theorem C16_action_token_balanced :
+  forall (r a r' : list ascii), braces 1 r = Some (a, r') -> balanced ("{"%char :: a).
+Proof. exact BraceBalance.action_token_balanced. Qed.
+Print Assumptions C16_action_token_balanced.
+
+(* the action substitution keeps the nesting: with brace-free tags the emitted code nests exactly as the action does *)
+Theorem C16_substitution_keeps_nesting :
+  forall (sp ao am ltag : list ascii) (rtags : list (list ascii)) (s out : list ascii),
+    brace_free sp -> brace_free ao -> brace_free am -> brace_free ltag -> (forall t, In t rtags -> brace_free t) ->
+    subst_action sp ao am ltag rtags s = Some out -> forall d, depth_after d out = depth_after d s.
+Proof. exact BraceBalance.subst_depth. Qed.
+Print Assumptions C16_substitution_keeps_nesting.
+
+(* hence the code pasted into one case of the reduce function is balanced: it cannot close the function or swallow the next case *)
+Theorem C16_emitted_action_balanced :
+  forall (sp ao am ltag : list ascii) (rtags : list (list ascii)) (r a r' out : list ascii),
+    braces 1 r = Some (a, r') ->
+    brace_free sp -> brace_free ao -> brace_free am -> brace_free ltag -> (forall t, In t rtags -> brace_free t) ->
+    subst_action sp ao am ltag rtags ("{"%char :: a) = Some out -> balanced out.
+Proof. exact BraceBalance.emitted_action_balanced. Qed.
+Print Assumptions C16_emitted_action_balanced.
